@@ -29,7 +29,16 @@ pub struct Plan {
     pub close_code: u32,
 }
 
-fn foreign_sid(rng: &mut Rng) -> u64 {
+/// The live session's id: 4 x the number of streams the raw client burnt before its CONNECT.
+fn own_sid(base: &Script) -> u64 {
+    if base.server_under_test {
+        4 * base.burn
+    } else {
+        0
+    }
+}
+
+fn foreign_sid(rng: &mut Rng, own: u64) -> u64 {
     // ids of client-initiated bidirectional streams other than the live session (0)
     match rng.below(7) {
         // equal to the live session id (0) modulo 2^8, 2^16 or 2^32: a narrowing conversion of
@@ -41,7 +50,7 @@ fn foreign_sid(rng: &mut Rng) -> u64 {
                 1 => 3,
                 _ => rng.range(1, (1u64 << (62 - shift)) - 1),
             };
-            k << shift
+            own + (k << shift).min(rc::VARINT_MAX - 3 - own) / 4 * 4
         }
         0 => 4,
         1 => 8,
@@ -60,6 +69,10 @@ pub fn gen_plan(seed: u64, index: usize, _tier: Tier) -> Plan {
     // a third of the runs: the application is busy between its calls, so streams and datagrams
     // (own and foreign) are already queued when it asks for the next one
     base.app_pace_ms = if rng.chance_pm(330) { *rng.pick(&[20u64, 150]) } else { 0 };
+    // a third of the server runs: the live session is not session 0 (then 0 is a foreign id too)
+    base.burn = if server_under_test && rng.chance_pm(330) { *rng.pick(&[1u64, 2, 16, 64, 300]) } else { 0 };
+    base.k.max_bi = 400;
+    let own0 = own_sid(&base);
     let n = rng.usize(2, 10);
     let mut items = Vec::new();
     let mut tag = 0u32;
@@ -69,12 +82,23 @@ pub fn gen_plan(seed: u64, index: usize, _tier: Tier) -> Plan {
             0 => Item::OwnUni { tag },
             1 => Item::OwnBi { tag },
             2 => Item::OwnDgram { tag },
-            3 | 4 => Item::ForeignUni { sid: foreign_sid(&mut rng), tag },
-            5 | 6 => Item::ForeignBi { sid: foreign_sid(&mut rng), tag },
-            7 => Item::ForeignDgram { sid: foreign_sid(&mut rng), tag },
+            3 | 4 => Item::ForeignUni { sid: foreign_sid(&mut rng, own0), tag },
+            5 | 6 => Item::ForeignBi { sid: foreign_sid(&mut rng, own0), tag },
+            7 => Item::ForeignDgram { sid: foreign_sid(&mut rng, own0), tag },
             _ => Item::Gap,
         };
         items.push(it);
+    }
+    let own = own_sid(&base);
+    for it in items.iter_mut() {
+        if let Item::ForeignUni { sid, .. } | Item::ForeignBi { sid, .. } | Item::ForeignDgram { sid, .. } = it {
+            if own != 0 && rng.chance_pm(250) {
+                *sid = 0;
+            }
+            if *sid == own {
+                *sid = own + 4;
+            }
+        }
     }
     Plan { base, items, close_code: rng.next_u64() as u32 }
 }
@@ -90,7 +114,7 @@ pub fn compile(p: &Plan) -> Script {
         let slot = 100 + i;
         match it {
             Item::OwnUni { tag } | Item::ForeignUni { tag, .. } => {
-                let (sid, own) = if let Item::ForeignUni { sid, .. } = it { (*sid, false) } else { (0, true) };
+                let (sid, own) = if let Item::ForeignUni { sid, .. } = it { (*sid, false) } else { (own_sid(&p.base), true) };
                 let mut b = rc::wt_uni_header(sid);
                 b.extend_from_slice(&payload(*tag, own));
                 acts.push(Act::OpenUni { slot });
@@ -102,7 +126,7 @@ pub fn compile(p: &Plan) -> Script {
                 }
             }
             Item::OwnBi { tag } | Item::ForeignBi { tag, .. } => {
-                let (sid, own) = if let Item::ForeignBi { sid, .. } = it { (*sid, false) } else { (0, true) };
+                let (sid, own) = if let Item::ForeignBi { sid, .. } = it { (*sid, false) } else { (own_sid(&p.base), true) };
                 let mut b = rc::wt_bidi_signal(sid);
                 b.extend_from_slice(&payload(*tag, own));
                 acts.push(Act::OpenBi { slot });
@@ -112,7 +136,7 @@ pub fn compile(p: &Plan) -> Script {
                 }
             }
             Item::OwnDgram { tag } | Item::ForeignDgram { tag, .. } => {
-                let (sid, own) = if let Item::ForeignDgram { sid, .. } = it { (*sid, false) } else { (0, true) };
+                let (sid, own) = if let Item::ForeignDgram { sid, .. } = it { (*sid, false) } else { (own_sid(&p.base), true) };
                 // own datagrams also in non-shortest quarter-id encodings
                 let mut d = Vec::new();
                 let shortest = rc::varint_len(sid / 4);
@@ -237,7 +261,7 @@ pub fn def() -> PropertyDef {
     PropertyDef {
         id: "C17",
         scenarios: vec![Box::new(Typed(C17Raw))],
-        rule: "Each run: live session 0 between the endpoint under test (server on even indexes, client on odd) and the scripted raw peer; 2-10 items interleaved in generated order: own uni / bidi streams and datagrams with tagged payloads, and uni streams, bidi streams and datagrams naming another well-formed session id (4, 8, and random ids needing 1-, 2-, 4- and 8-byte varints up to 4*(2^60-1)); then the session's close capsule. Oracle: the application never receives a foreign payload; all own streams arrive byte-exact and nothing else is handed over; paced own datagrams arrive; every foreign stream is answered with STOP_SENDING(WEBTRANSPORT_BUFFERED_STREAM_REJECTED = 0x3994bd84); the live session survives and ends with its capsule (H3_NO_ERROR on the wire). Ids of the other three stream classes are H3_ID_ERROR and are exercised under C12. Non-trivial = at least one foreign item; distinct = distinct plan hashes. Not a simulation target: the identifier algebra (SessionId/QStreamId/StreamId conversions over all 2^62 values) is pure arithmetic.",
+        rule: "Each run: a live session (id 0; against the server in a third of the runs 4, 8, 64, 256 or 1200, and then 0 is among the foreign ids) between the endpoint under test (server on even indexes, client on odd) and the scripted raw peer; 2-10 items interleaved in generated order: own uni / bidi streams and datagrams with tagged payloads, and uni streams, bidi streams and datagrams naming another well-formed session id (4, 8, and random ids needing 1-, 2-, 4- and 8-byte varints up to 4*(2^60-1)); then the session's close capsule. Oracle: the application never receives a foreign payload; all own streams arrive byte-exact and nothing else is handed over; paced own datagrams arrive; every foreign stream is answered with STOP_SENDING(WEBTRANSPORT_BUFFERED_STREAM_REJECTED = 0x3994bd84); the live session survives and ends with its capsule (H3_NO_ERROR on the wire). Ids of the other three stream classes are H3_ID_ERROR and are exercised under C12. Non-trivial = at least one foreign item; distinct = distinct plan hashes. Not a simulation target: the identifier algebra (SessionId/QStreamId/StreamId conversions over all 2^62 values) is pure arithmetic.",
         assumptions: vec![
             "only session ids the wire format can carry are used; the algebra half of the property is pure and not claimed",
             "raw peer + reference codec are harness code; current-thread runtime; fault-free network",
